@@ -193,6 +193,10 @@ func (s *session) start(trigger flows.Trigger) (flows.Sprint, error) {
 func (s *session) Resume(resume flows.Resume) (flows.Sprint, error) {
 	sprint := newEmptySprint()
 
+	// only the sprint started by a batch trigger is part of the batch start (and a session read back
+	// from JSON never is), so a resumed live session must not behave differently from a restored one
+	s.batchStart = false
+
 	if err := s.prepareForSprint(); err != nil {
 		return sprint, err
 	}
